@@ -847,6 +847,15 @@ func follows(path string, b *MsgB, prev, cur, fresh *Node, sv reflect.Value, st 
 					return fmt.Sprintf("%s: the embedded message is nil in the source but the attribute still holds %s (was %s)", p, cn.String(), pv.String())
 				}
 			}
+			// ... and its lists and maps have no elements (what a CopyTo into an empty object gives as well)
+			if (ab.A.Card == "repeated" || ab.A.Card == "map") && !cn.Null && len(fn.Elems)+len(fn.MapElems) == 0 {
+				if n := len(cn.Elems) + len(cn.MapElems); n != 0 {
+					return fmt.Sprintf("%s: the embedded message is nil in the source (no elements) but the collection still has %d after refresh: %s", p, n, cn.String())
+				}
+				if pv != nil && len(pv.Elems)+len(pv.MapElems) > 0 {
+					st.lenChanged = true
+				}
+			}
 			continue
 		}
 		v, ok := ab.Get(sv)
@@ -937,7 +946,7 @@ var rcModel *model.Model
 func propC09(t *rapid.T, e *Env) {
 	rc := drawRoot(t, e)
 	rcModel = rc.Mdl
-	g := &vgen{t: t}
+	g := &vgen{t: t, o: VOpts{KeyPool: keyPools[rc.B.Typ]}}
 	x := GenStruct(t, rc.B.Typ, VOpts{})
 	cur := toEmpty(t, e, rc, x, "the initial value")
 	obj := cur.Object()
